@@ -349,7 +349,7 @@ def run_lines(cmd: list[str], lines: list[str], env=None, timeout=1800, cwd=None
 def run_sharded(cmd: list[str], lines: list[str], shards: int = NCPU, env=None, timeout=3600, cwd=None) -> tuple[list[str], str]:
     """Split lines round-robin over processes; executors answer one line per case and each
     case line is independent (stateful streams must not use this)."""
-    if len(lines) < 2000 or shards <= 1:
+    if len(lines) < 64 or shards <= 1:
         return run_lines(cmd, lines, env=env, timeout=timeout, cwd=cwd)
     chunks = [lines[i::shards] for i in range(shards)]
     procs = []
